@@ -43,10 +43,18 @@ def runExport (j : Json) : R (Json × Json) := do
   let cEdgeType : Tree Nat → Tree Nat → String := fun p c => if (p.label + c.label) % 2 == 0 then "--" else "->"
   let specId : Tree Nat → String := fun n => pyHex (1000 + n.label)
   let specIdM : Tree Nat → String := fun n => "N" ++ toString (1000 + n.label)
-  let rec runIters {σ : Type} (k : Nat) (step : σ → List String × σ) (st : σ) (acc : List String) : List String :=
+  -- `exporter.maxlevel` may be changed between two iterations of one exporter: `maxlevel_seq[i]` (if given) is the
+  -- value in force during iteration i
+  let mseq : List (Option Int) ← (do
+    let v ← getField j "maxlevel_seq"
+    if v.isNull then pure [] else (do
+      let a ← asArr v
+      pure (a.toList.map (fun x => match x.getInt? with | .ok n => some n | .error _ => none)))) <|> pure []
+  let mAt : Nat → Option Int := fun i => match mseq[i]? with | some v => v | none => m
+  let rec runIters {σ : Type} (i k : Nat) (step : Nat → σ → List String × σ) (st : σ) (acc : List String) : List String :=
     match k with
     | 0 => acc
-    | k+1 => let (ls, st') := step st; runIters k step st' (acc ++ ls)
+    | k+1 => let (ls, st') := step i st; runIters (i + 1) k step st' (acc ++ ls)
   match kind with
   | "mermaid" =>
     let cfg : MermaidCfg Nat Nat := {
@@ -59,9 +67,9 @@ def runExport (j : Json) : R (Json × Json) := do
       filter := F, stop := S, maxlevel := m }
     let nodes0 := Iter.preIter cfg.filter cfg.stop cfg.maxlevel s
     let st0 := (merNodes cfg (spaces cfg.indent) (nodes0.take partialN) ([] : IdMap Nat)).2
-    let mir := runIters iters (fun st => merIter legacy cfg s st) st0 []
+    let mir := runIters 0 iters (fun i st => merIter legacy { cfg with maxlevel := mAt i } s st) st0 []
     let nm : Tree Nat → String := if custom then (fun n => "n" ++ toString n.label) else specIdM
-    let sp := (List.range iters).flatMap (fun _ => Spec.merLinesS cfg nm s)
+    let sp := (List.range iters).flatMap (fun i => Spec.merLinesS { cfg with maxlevel := mAt i } nm s)
     pure (strsJ mir, strsJ sp)
   | _ =>
     let uniq := kind == "unique"
@@ -75,9 +83,9 @@ def runExport (j : Json) : R (Json × Json) := do
       filter := F, stop := S, maxlevel := m }
     let nodes0 := Iter.preIter cfg.filter cfg.stop cfg.maxlevel s
     let st0 := (dotNodes cfg (spaces cfg.indent) (nodes0.take partialN) ([] : IdMap Nat)).2
-    let mir := runIters iters (fun st => dotIter legacy cfg s st) st0 []
+    let mir := runIters 0 iters (fun i st => dotIter legacy { cfg with maxlevel := mAt i } s st) st0 []
     let nm : Tree Nat → String := if custom then cName else if uniq then specId else nameOf
-    let sp := (List.range iters).flatMap (fun _ => Spec.dotLinesS cfg nm s)
+    let sp := (List.range iters).flatMap (fun i => Spec.dotLinesS { cfg with maxlevel := mAt i } nm s)
     pure (strsJ mir, strsJ sp)
 
 end Anytree.Drv
